@@ -261,37 +261,14 @@ JOBS['C09'] = Job('C09', mc='MC_Checksum', tag='CKS', drive='cks-run', trace='Tr
                                'UDP over IPv6 jumbograms (payload > 65527) are not generated'])
 
 
-def wire_extra(tier, seed):
-    """seeded random well formed values of every header kind (fields uniformly random, variable parts of random admissible length)"""
-    r = random.Random(seed * 23 + 8)
+def control_byte_cases(tier, r):
+    """byte strings with every value of the control bytes of each header kind (incl. reserved bits), over a body that is long enough for
+    whatever length the control bytes announce; used by the C08 'any' cases and by the io pipeline (C06 / C16)"""
     out = []
 
     def by(n):
         return [r.randrange(256) for _ in range(n)]
-    n = 150 if tier == 'quick' else 5000
-    for _ in range(n):
-        out.append({'kind': 'value', 'type': 'eth', 'f': by(12) + [r.randrange(65536)], 'bytes': []})
-        out.append({'kind': 'value', 'type': 'vlan', 'f': [r.randrange(8), r.randrange(2), r.randrange(4096), r.randrange(65536)], 'bytes': []})
-        pt = r.randrange(4)
-        sl = r.randrange(64)
-        if pt == 0 and sl == 1:
-            sl = 2
-        sc = r.randrange(2)
-        out.append({'kind': 'value', 'type': 'macsec', 'f': [pt, r.randrange(65536) if pt == 0 else -1, r.randrange(2), r.randrange(2), r.randrange(4), sl] + by(4) + ([1] + by(8) if sc else [0]), 'bytes': []})
-        h, p = r.choice([0, 1, 6, 8, 255]), r.choice([0, 4, 16, 255])
-        out.append({'kind': 'value', 'type': 'arp', 'f': [r.randrange(65536), r.randrange(65536), h, p, r.randrange(65536)] + by(2 * h + 2 * p), 'bytes': []})
-        on = 4 * r.randrange(0, 11)
-        out.append({'kind': 'value', 'type': 'ipv4', 'f': [r.randrange(64), r.randrange(4), r.randrange(65536), r.randrange(65536), r.randrange(2), r.randrange(2), r.randrange(8192),
-                                                           r.randrange(256), r.randrange(256), r.randrange(65536)] + by(8) + by(on), 'bytes': []})
-        out.append({'kind': 'value', 'type': 'auth', 'f': [r.randrange(256)] + by(8) + by(4 * r.choice([0, 1, 2, 3, 10, 254])), 'bytes': []})
-        out.append({'kind': 'value', 'type': 'ipv6', 'f': [r.randrange(256), r.randrange(16), r.randrange(256), r.randrange(256), r.randrange(65536), r.randrange(256), r.randrange(256)] + by(32), 'bytes': []})
-        out.append({'kind': 'value', 'type': 'udp', 'f': [r.randrange(65536) for _ in range(4)], 'bytes': []})
-        tn = 4 * r.randrange(0, 11)
-        out.append({'kind': 'value', 'type': 'tcp', 'f': [r.randrange(65536), r.randrange(65536)] + by(8) + [5 + tn // 4, r.randrange(512), r.randrange(65536), r.randrange(65536), r.randrange(65536)] + by(tn), 'bytes': []})
-        out.append({'kind': 'value', 'type': 'frag', 'f': [r.randrange(256), r.randrange(8192), r.randrange(2)] + by(4), 'bytes': []})
-        out.append({'kind': 'value', 'type': 'rawext', 'f': [r.randrange(256)] + by(6 + 8 * r.choice([0, 1, 2, 7, 255])), 'bytes': []})
-    # ANY byte string through both decoders (from_slice, read): every value of the control bytes of each header kind (incl. reserved bits),
-    # over a body that is long enough for whatever length the control bytes announce
+
     def anyc(ty, b):
         out.append({'kind': 'any', 'type': ty, 'f': [], 'bytes': b})
     for tci in (0x00, 0x20, 0x04, 0x08, 0x0c, 0x2c, 0x10, 0x40, 0x80, 0x23):
@@ -324,6 +301,39 @@ def wire_extra(tier, seed):
             if ty == 'icmp4':
                 b[0], b[1] = r.choice([0, 3, 5, 8, 11, 12, 13, 14, 42]), r.choice([0, 0, 1, 4])
             anyc(ty, b)
+    return out
+
+
+def wire_extra(tier, seed):
+    """seeded random well formed values of every header kind (fields uniformly random, variable parts of random admissible length)"""
+    r = random.Random(seed * 23 + 8)
+    out = []
+
+    def by(n):
+        return [r.randrange(256) for _ in range(n)]
+    n = 150 if tier == 'quick' else 5000
+    for _ in range(n):
+        out.append({'kind': 'value', 'type': 'eth', 'f': by(12) + [r.randrange(65536)], 'bytes': []})
+        out.append({'kind': 'value', 'type': 'vlan', 'f': [r.randrange(8), r.randrange(2), r.randrange(4096), r.randrange(65536)], 'bytes': []})
+        pt = r.randrange(4)
+        sl = r.randrange(64)
+        if pt == 0 and sl == 1:
+            sl = 2
+        sc = r.randrange(2)
+        out.append({'kind': 'value', 'type': 'macsec', 'f': [pt, r.randrange(65536) if pt == 0 else -1, r.randrange(2), r.randrange(2), r.randrange(4), sl] + by(4) + ([1] + by(8) if sc else [0]), 'bytes': []})
+        h, p = r.choice([0, 1, 6, 8, 255]), r.choice([0, 4, 16, 255])
+        out.append({'kind': 'value', 'type': 'arp', 'f': [r.randrange(65536), r.randrange(65536), h, p, r.randrange(65536)] + by(2 * h + 2 * p), 'bytes': []})
+        on = 4 * r.randrange(0, 11)
+        out.append({'kind': 'value', 'type': 'ipv4', 'f': [r.randrange(64), r.randrange(4), r.randrange(65536), r.randrange(65536), r.randrange(2), r.randrange(2), r.randrange(8192),
+                                                           r.randrange(256), r.randrange(256), r.randrange(65536)] + by(8) + by(on), 'bytes': []})
+        out.append({'kind': 'value', 'type': 'auth', 'f': [r.randrange(256)] + by(8) + by(4 * r.choice([0, 1, 2, 3, 10, 254])), 'bytes': []})
+        out.append({'kind': 'value', 'type': 'ipv6', 'f': [r.randrange(256), r.randrange(16), r.randrange(256), r.randrange(256), r.randrange(65536), r.randrange(256), r.randrange(256)] + by(32), 'bytes': []})
+        out.append({'kind': 'value', 'type': 'udp', 'f': [r.randrange(65536) for _ in range(4)], 'bytes': []})
+        tn = 4 * r.randrange(0, 11)
+        out.append({'kind': 'value', 'type': 'tcp', 'f': [r.randrange(65536), r.randrange(65536)] + by(8) + [5 + tn // 4, r.randrange(512), r.randrange(65536), r.randrange(65536), r.randrange(65536)] + by(tn), 'bytes': []})
+        out.append({'kind': 'value', 'type': 'frag', 'f': [r.randrange(256), r.randrange(8192), r.randrange(2)] + by(4), 'bytes': []})
+        out.append({'kind': 'value', 'type': 'rawext', 'f': [r.randrange(256)] + by(6 + 8 * r.choice([0, 1, 2, 7, 255])), 'bytes': []})
+    out.extend(control_byte_cases(tier, r))
     return out
 
 
